@@ -1004,3 +1004,11 @@ func flagCopy(g *Graph, e ast.Expr) (*types.Var, bool) {
 	}
 	return nil, false
 }
+
+// AddrTaken reports whether the local variable v has its address taken or is
+// written by a nested function literal (its definitions are not all visible
+// as statements of this graph).
+func (g *Graph) AddrTaken(v *types.Var) bool { return g.addrTaken[v] }
+
+// LocalVar resolves an identifier expression to the local variable it names.
+func (g *Graph) LocalVar(e ast.Expr) *types.Var { return g.localVar(e) }
